@@ -219,7 +219,7 @@ impl Runnable for C12Enum {
     fn run(&self, _perm: u64) -> Report {
         let t0 = Instant::now();
         let ls = lists(self.max_len, self.max_val);
-        // watchdog: a planning call that does not return within 2 s is reported as non-termination
+        // watchdog: a planning call that does not return within 30 s is reported as non-termination
         let slots: Arc<Vec<Mutex<(String, Instant)>>> = Arc::new((0..rayon::current_num_threads().max(1) + 1).map(|_| Mutex::new((String::new(), Instant::now()))).collect());
         let done = Arc::new(AtomicBool::new(false));
         let active = Arc::new(AtomicU64::new(0));
@@ -231,7 +231,7 @@ impl Runnable for C12Enum {
                     std::thread::sleep(Duration::from_millis(200));
                     for s in slots.iter() {
                         let g = s.lock().unwrap();
-                        if !g.0.is_empty() && g.1.elapsed() > Duration::from_secs(2) && !done.load(Ordering::Relaxed) {
+                        if !g.0.is_empty() && g.1.elapsed() > Duration::from_secs(30) && !done.load(Ordering::Relaxed) {
                             let dir = crate::runner::verif_dir();
                             let f = format!("{}/replays/C12-nontermination.json", dir);
                             let _ = std::fs::create_dir_all(format!("{}/replays", dir));
